@@ -127,6 +127,7 @@ type vpWorld struct {
 	calls   int
 	faultAt int // the calls-th API/provider call fails cleanly; 0 = none
 	crashAt int // the process dies right before the calls-th API/provider call; 0 = never
+	faultKinds map[string]bool // if set, only calls of these kinds are counted for faultAt / crashAt
 	faulted bool
 
 	provider    *vpProvider
@@ -193,6 +194,9 @@ func (w *vpWorld) tick(kind, name string) error {
 	w.windowPoint()
 	w.mu.Lock()
 	defer w.mu.Unlock()
+	if w.faultKinds != nil && !w.faultKinds[kind] {
+		return nil // this scenario injects faults into some kinds of calls only
+	}
 	w.calls++
 	if w.crashAt != 0 && w.crashAt == w.calls {
 		w.mu.Unlock()
